@@ -21,31 +21,38 @@ Proof.
   congruence.
 Qed.
 
-(* well-formed case: graphs are sets, graph names are distinct *)
+(* well-formed case: graphs are sets, graph names are distinct, the data (and the
+   graph names) hold no boolean literals *)
 Definition case_wf (c : case) : bool :=
   nodup_graph (ds_default (c_ds c))
   && nodup_terms (map fst (ds_named (c_ds c)))
-  && forallb (fun ng => nodup_graph (snd ng)) (ds_named (c_ds c)).
+  && forallb (fun ng => nodup_graph (snd ng)) (ds_named (c_ds c))
+  && graph_nb (ds_default (c_ds c))
+  && forallb (fun ng => nb (fst ng) && graph_nb (snd ng)) (ds_named (c_ds c)).
 
 Definition in_frag (c : case) : bool := top_frag (map fst (ds_named (c_ds c))) (c_alg c).
 
-Lemma case_wf_graphs c : case_wf c = true -> graphs_nodup (c_ds c) /\ NoDup (ds_default (c_ds c)).
+Lemma case_wf_graphs c : case_wf c = true ->
+  graphs_nodup (c_ds c) /\ ds_nb (c_ds c) /\ gok (ds_default (c_ds c)).
 Proof.
-  unfold case_wf. intros H. apply andb_true_iff in H as [H H3]. apply andb_true_iff in H as [H1 H2].
-  split; [split|].
+  unfold case_wf. intros H. apply andb_true_iff in H as [H H5]. apply andb_true_iff in H as [H H4].
+  apply andb_true_iff in H as [H H3]. apply andb_true_iff in H as [H1 H2].
+  split; [split|split; [|split]].
   - now apply nodup_terms_NoDup.
   - intros ng I. rewrite forallb_forall in H3. apply nodup_graph_NoDup. now apply H3.
+  - intros ng I. rewrite forallb_forall in H5. specialize (H5 ng I). now apply andb_true_iff in H5.
   - now apply nodup_graph_NoDup.
+  - exact H4.
 Qed.
 
 Lemma top_rows c : case_wf c = true -> in_frag c = true ->
   Permutation (eval_td (c_ds c) (ds_default (c_ds c)) [] (c_alg c)) (spec_rows c).
 Proof.
-  intros W F. destruct (case_wf_graphs c W) as [Gn Nd]. unfold in_frag in F. unfold spec_rows.
+  intros W F. destruct (case_wf_graphs c W) as [Gn [Dn Nd]]. unfold in_frag in F. unfold spec_rows.
   assert (K : forall q, frag (map fst (ds_named (c_ds c))) [] q = true ->
               Permutation (eval_td (c_ds c) (ds_default (c_ds c)) [] q)
                           (eval_bu (c_ds c) (ds_default (c_ds c)) q)).
-  { intros q Fq. rewrite (pushdown (c_ds c) Gn q [] Fq _ [] Nd eq_refl).
+  { intros q Fq. rewrite (pushdown (c_ds c) Gn Dn q [] Fq _ [] Nd eq_refl).
     - rewrite join_ctx_nil; [reflexivity|]. apply bu_wf. eapply frag_shape; eauto.
     - intros v H. cbn in H. congruence. }
   destruct (c_alg c); cbn in F; try discriminate.
